@@ -37,9 +37,24 @@ Section NodeInd.
     end.
 End NodeInd.
 
+(* ---------------------------------------------------------------- sibling order *)
+
+(* one reordering step: the children of one group, at any depth, are permuted *)
+Inductive sperm1 : node -> node -> Prop :=
+| sp_here i ch ch' : Permutation ch ch' -> sperm1 (Group i ch) (Group i ch')
+| sp_inside i pre x y post :
+    sperm1 x y -> sperm1 (Group i (pre ++ x :: post)) (Group i (pre ++ y :: post)).
+
+(* [sperm a b]: b is a with the children of any groups (at any level) reordered *)
+Definition sperm : node -> node -> Prop := clos_refl_trans node sperm1.
+
+
+Section Fx.
+Variable fx : bool.   (* false: code before the fix: commits; true: repaired code *)
+
 (* ---------------------------------------------------------------- A || B *)
 
-Lemma or_groups_nonempty g1 g2 : nonempty (or_groups g1 g2) = nonempty g1 || nonempty g2.
+Lemma or_groups_nonempty g1 g2 : nonempty (or_groups fx g1 g2) = nonempty g1 || nonempty g2.
 Proof.
   unfold or_groups. rewrite nonempty_app.
   destruct g2 as [|o g2]; simpl.
@@ -49,10 +64,10 @@ Qed.
 
 (* 'A || B' matches iff A or B does (every annotation, every A, B, both modes) *)
 Lemma or_iff_mode t a b ex root :
-  nonempty (handle (EOr t a b) ex root) = nonempty (handle a ex root) || nonempty (handle b ex root).
+  nonempty (handle fx (EOr t a b) ex root) = nonempty (handle fx a ex root) || nonempty (handle fx b ex root).
 Proof. simpl. apply or_groups_nonempty. Qed.
 
-Lemma or_iff t a b root : matches (EOr t a b) root = matches a root || matches b root.
+Lemma or_iff t a b root : matches fx (EOr t a b) root = matches fx a root || matches fx b root.
 Proof. unfold matches. apply or_iff_mode. Qed.
 
 (* ---------------------------------------------------------------- A && B *)
@@ -62,9 +77,9 @@ Definition compat (r o : sres) : bool :=
   Nat.eqb (gid r) (gid o) && negb (overlap (sr_tags r) (sr_tags o)).
 
 Lemma merge_step_eq g acc o :
-  merge_step g acc o =
+  merge_step fx g acc o =
   if compat g o then
-    (if existsb (has_same_tags (merge_and_result g o)) acc then acc else acc ++ [merge_and_result g o])
+    (if existsb (has_same_tags fx (merge_and_result g o)) acc then acc else acc ++ [merge_and_result g o])
   else acc.
 Proof.
   unfold merge_step, compat.
@@ -75,13 +90,13 @@ Qed.
 Lemma ids_eq_refl l : ids_eq l l = true.
 Proof. induction l as [|x l IH]; simpl; [reflexivity | rewrite Nat.eqb_refl; exact IH]. Qed.
 
-Lemma has_same_tags_refl r : has_same_tags r r = true.
+Lemma has_same_tags_refl r : has_same_tags fx r r = true.
 Proof.
-  unfold has_same_tags, group_eq. rewrite Nat.eqb_refl, ids_eq_refl. reflexivity.
+  unfold has_same_tags, group_eq. rewrite ids_eq_refl. destruct fx; rewrite Nat.eqb_refl; reflexivity.
 Qed.
 
 (* inner loop: the accumulator only grows *)
-Lemma inner_mono g g2 : forall acc x, In x acc -> In x (fold_left (merge_step g) g2 acc).
+Lemma inner_mono g g2 : forall acc x, In x acc -> In x (fold_left (merge_step fx g) g2 acc).
 Proof.
   induction g2 as [|o g2 IH]; intros acc x Hx; simpl; [assumption|].
   apply IH. rewrite merge_step_eq.
@@ -91,7 +106,7 @@ Qed.
 
 (* S1: whatever is added is the merge of a compatible pair *)
 Lemma inner_sound g g2 : forall acc m,
-  In m (fold_left (merge_step g) g2 acc) ->
+  In m (fold_left (merge_step fx g) g2 acc) ->
   In m acc \/ exists o, In o g2 /\ compat g o = true /\ m = merge_and_result g o.
 Proof.
   induction g2 as [|o g2 IH]; intros acc m Hm; simpl in Hm; [left; assumption|].
@@ -107,12 +122,12 @@ Qed.
 (* S2: every compatible pair is represented (up to has_same_tags) *)
 Lemma inner_complete g g2 : forall acc o,
   In o g2 -> compat g o = true ->
-  exists m', In m' (fold_left (merge_step g) g2 acc) /\ has_same_tags (merge_and_result g o) m' = true.
+  exists m', In m' (fold_left (merge_step fx g) g2 acc) /\ has_same_tags fx (merge_and_result g o) m' = true.
 Proof.
   induction g2 as [|o0 g2 IH]; intros acc o Ho Hc; [destruct Ho|].
   simpl. destruct Ho as [Ho | Ho].
   - subst o0. rewrite merge_step_eq, Hc.
-    destruct (existsb (has_same_tags (merge_and_result g o)) acc) eqn:He.
+    destruct (existsb (has_same_tags fx (merge_and_result g o)) acc) eqn:He.
     + apply existsb_exists in He. destruct He as (m' & Hin & Hs).
       exists m'. split; [apply inner_mono; assumption | assumption].
     + exists (merge_and_result g o). split; [|apply has_same_tags_refl].
@@ -121,14 +136,14 @@ Proof.
 Qed.
 
 Lemma outer_mono g2 g1 : forall acc x,
-  In x acc -> In x (fold_left (fun acc g => fold_left (merge_step g) g2 acc) g1 acc).
+  In x acc -> In x (fold_left (fun acc g => fold_left (merge_step fx g) g2 acc) g1 acc).
 Proof.
   induction g1 as [|g g1 IH]; intros acc x Hx; simpl; [assumption|].
   apply IH. apply inner_mono. assumption.
 Qed.
 
 Lemma outer_sound g2 g1 : forall acc m,
-  In m (fold_left (fun acc g => fold_left (merge_step g) g2 acc) g1 acc) ->
+  In m (fold_left (fun acc g => fold_left (merge_step fx g) g2 acc) g1 acc) ->
   In m acc \/ exists r o, In r g1 /\ In o g2 /\ compat r o = true /\ m = merge_and_result r o.
 Proof.
   induction g1 as [|g g1 IH]; intros acc m Hm; simpl in Hm; [left; assumption|].
@@ -140,8 +155,8 @@ Qed.
 
 Lemma outer_complete g2 g1 : forall acc r o,
   In r g1 -> In o g2 -> compat r o = true ->
-  exists m', In m' (fold_left (fun acc g => fold_left (merge_step g) g2 acc) g1 acc) /\
-             has_same_tags (merge_and_result r o) m' = true.
+  exists m', In m' (fold_left (fun acc g => fold_left (merge_step fx g) g2 acc) g1 acc) /\
+             has_same_tags fx (merge_and_result r o) m' = true.
 Proof.
   induction g1 as [|g g1 IH]; intros acc r o Hr Ho Hc; [destruct Hr|].
   simpl. destruct Hr as [Hr | Hr].
@@ -152,7 +167,7 @@ Qed.
 
 (* ExpressionAnd.merge_and_groups, S1 and S2 *)
 Lemma merge_sound g1 g2 m :
-  In m (merge_and_groups g1 g2) ->
+  In m (merge_and_groups fx g1 g2) ->
   exists r o, In r g1 /\ In o g2 /\ compat r o = true /\ m = merge_and_result r o.
 Proof.
   intro Hm. apply outer_sound in Hm. destruct Hm as [[] | H]. exact H.
@@ -160,11 +175,11 @@ Qed.
 
 Lemma merge_complete g1 g2 r o :
   In r g1 -> In o g2 -> compat r o = true ->
-  exists m', In m' (merge_and_groups g1 g2) /\ has_same_tags (merge_and_result r o) m' = true.
+  exists m', In m' (merge_and_groups fx g1 g2) /\ has_same_tags fx (merge_and_result r o) m' = true.
 Proof. apply outer_complete. Qed.
 
 Lemma merge_nonempty g1 g2 :
-  nonempty (merge_and_groups g1 g2) = true <->
+  nonempty (merge_and_groups fx g1 g2) = true <->
   exists r o, In r g1 /\ In o g2 /\ compat r o = true.
 Proof.
   rewrite nonempty_in. split.
@@ -175,14 +190,14 @@ Proof.
 Qed.
 
 Lemma handle_and t a b ex root :
-  handle (EAnd t a b) ex root = merge_and_groups (handle a ex root) (handle b ex root).
-Proof. simpl. destruct (handle a ex root); reflexivity. Qed.
+  handle fx (EAnd t a b) ex root = merge_and_groups fx (handle fx a ex root) (handle fx b ex root).
+Proof. simpl. destruct (handle fx a ex root); reflexivity. Qed.
 
 (* 'A && B' matches exactly when A and B have results on the same group that
    share no child ("via distinct tags") *)
 Lemma and_iff_distinct_mode t a b ex root :
-  nonempty (handle (EAnd t a b) ex root) = true <->
-  exists r o, In r (handle a ex root) /\ In o (handle b ex root) /\
+  nonempty (handle fx (EAnd t a b) ex root) = true <->
+  exists r o, In r (handle fx a ex root) /\ In o (handle fx b ex root) /\
               gid r = gid o /\ overlap (sr_tags r) (sr_tags o) = false.
 Proof.
   rewrite handle_and, merge_nonempty. split; intros (r & o & Hr & Ho & H); exists r, o.
@@ -192,8 +207,8 @@ Proof.
 Qed.
 
 Lemma and_iff_distinct t a b root :
-  matches (EAnd t a b) root = true <->
-  exists r o, In r (handle a false root) /\ In o (handle b false root) /\
+  matches fx (EAnd t a b) root = true <->
+  exists r o, In r (handle fx a false root) /\ In o (handle fx b false root) /\
               gid r = gid o /\ overlap (sr_tags r) (sr_tags o) = false.
 Proof. unfold matches. apply and_iff_distinct_mode. Qed.
 
@@ -223,18 +238,18 @@ Proof. unfold compat. rewrite overlap_sym, (Nat.eqb_sym (gid r)). reflexivity. Q
 
 (* 'A && B' is symmetric as a match verdict *)
 Lemma and_symmetric_mode t t' a b ex root :
-  nonempty (handle (EAnd t a b) ex root) = nonempty (handle (EAnd t' b a) ex root).
+  nonempty (handle fx (EAnd t a b) ex root) = nonempty (handle fx (EAnd t' b a) ex root).
 Proof.
   apply eq_true_iff_eq. rewrite !handle_and, !merge_nonempty.
   split; intros (r & o & Hr & Ho & Hc); exists o, r; rewrite compat_sym; auto.
 Qed.
 
-Lemma and_symmetric t t' a b root : matches (EAnd t a b) root = matches (EAnd t' b a) root.
+Lemma and_symmetric t t' a b root : matches fx (EAnd t a b) root = matches fx (EAnd t' b a) root.
 Proof. unfold matches. apply and_symmetric_mode. Qed.
 
 (* 'A && B' matches only if both do *)
 Lemma and_implies_both t a b root :
-  matches (EAnd t a b) root = true -> matches a root = true /\ matches b root = true.
+  matches fx (EAnd t a b) root = true -> matches fx a root = true /\ matches fx b root = true.
 Proof.
   intro H. apply and_iff_distinct in H. destruct H as (r & o & Hr & Ho & _).
   unfold matches. rewrite !nonempty_in. split; eexists; eassumption.
@@ -284,7 +299,7 @@ Qed.
 (* a search term without at-sign: the verdict is "some tag of the annotation matches" *)
 Lemma term_matches tok mode text i ch :
   term_info tok = (mode, false, text) ->
-  matches (ETerm tok) (Group i ch) =
+  matches fx (ETerm tok) (Group i ch) =
   existsb (fun tc => tag_matches mode text (fst tc)) (all_tags (Group i ch)).
 Proof.
   intro Hinfo. unfold matches. cbn [handle]. unfold term_results. rewrite Hinfo.
@@ -309,34 +324,6 @@ Proof.
       rewrite andb_true_iff, IH, N.eqb_eq. split.
       * intros (He & rest & Hr). subst. exists rest. reflexivity.
       * intros (rest & Hr). inversion Hr; subst. split; [reflexivity | exists rest; reflexivity].
-Qed.
-
-(* ---------------------------------------------------------------- sibling order *)
-
-(* one reordering step: the children of one group, at any depth, are permuted *)
-Inductive sperm1 : node -> node -> Prop :=
-| sp_here i ch ch' : Permutation ch ch' -> sperm1 (Group i ch) (Group i ch')
-| sp_inside i pre x y post :
-    sperm1 x y -> sperm1 (Group i (pre ++ x :: post)) (Group i (pre ++ y :: post)).
-
-(* [sperm a b]: b is a with the children of any groups (at any level) reordered *)
-Definition sperm : node -> node -> Prop := clos_refl_trans node sperm1.
-
-(* witness of C15-F1 *)
-Definition w_red (i : nat) : node := Tag i [[99; 111; 108; 111; 114]%N; [114; 101; 100]%N] [82; 101; 100]%N [82; 101; 100]%N.
-Definition w_blue (i : nat) : node := Tag i [[99; 111; 108; 111; 114]%N; [98; 108; 117; 101]%N] [66; 108; 117; 101]%N [66; 108; 117; 101]%N.
-(* (Red,Blue),(Red,Blue) *)
-Definition w_ann1 : node := Group 0 [Group 1 [w_red 2; w_blue 3]; Group 4 [w_red 5; w_blue 6]].
-(* (Red,Blue),(Blue,Red): the second group reordered *)
-Definition w_ann2 : node := Group 0 [Group 1 [w_red 2; w_blue 3]; Group 4 [w_blue 6; w_red 5]].
-(* [~Green && ~Item] && [~Green && ~Item] *)
-Definition w_query : str := [91; 126; 71; 114; 101; 101; 110; 32; 38; 38; 32; 126; 73; 116; 101; 109; 93; 32; 38; 38; 32; 91; 126; 71; 114; 101; 101; 110; 32; 38; 38; 32; 126; 73; 116; 101; 109; 93]%N.
-
-Lemma w_sperm : sperm w_ann1 w_ann2.
-Proof.
-  apply rt_step. unfold w_ann1, w_ann2.
-  apply (sp_inside 0 [Group 1 [w_red 2; w_blue 3]] (Group 4 [w_red 5; w_blue 6]) (Group 4 [w_blue 6; w_red 5]) []).
-  apply sp_here. apply perm_swap.
 Qed.
 
 (* ---------------------------------------------------------------- results live in the annotation *)
@@ -397,14 +384,14 @@ Proof.
 Qed.
 
 Lemma merge_valid root g1 g2 m :
-  (forall x, In x g1 -> valid root (sr_chain x)) -> In m (merge_and_groups g1 g2) -> valid root (sr_chain m).
+  (forall x, In x g1 -> valid root (sr_chain x)) -> In m (merge_and_groups fx g1 g2) -> valid root (sr_chain m).
 Proof.
   intros Hv Hin. apply merge_sound in Hin. destruct Hin as (r & o & Hr & _ & _ & He). subst m. simpl. apply Hv; exact Hr.
 Qed.
 
 (* every result of every expression refers to a group of the annotation *)
 Lemma handle_valid i ch e : forall ex r,
-  In r (handle e ex (Group i ch)) -> valid (Group i ch) (sr_chain r).
+  In r (handle fx e ex (Group i ch)) -> valid (Group i ch) (sr_chain r).
 Proof.
   set (root := Group i ch).
   induction e as [tok | tok | tok a IHa b IHb | tok a IHa b IHb | tok a IHa | tok a IHa | tok a IHa | tok a IHa
@@ -433,7 +420,7 @@ Proof.
     apply in_flat_map in Hin. destruct Hin as (c & Hc & Hin).
     apply in_map_iff in Hin. destruct Hin as (x & He & _). subst r. exact Hc.
   - (* and *)
-    rewrite handle_and in Hin. apply merge_valid with (handle a ex root) (handle b ex root); [apply IHa | exact Hin].
+    rewrite handle_and in Hin. apply merge_valid with (handle fx a ex root) (handle fx b ex root); [apply IHa | exact Hin].
   - (* or *)
     cbn [handle] in Hin. unfold or_groups in Hin. apply in_app_or in Hin. destruct Hin as [Hin | Hin].
     + apply filter_In in Hin. destruct Hin as [Hin _]. apply IHa with ex; exact Hin.
@@ -441,18 +428,18 @@ Proof.
   - (* negation *)
     cbn [handle] in Hin. unfold negate in Hin. apply in_map_iff in Hin. destruct Hin as (c & He & Hc).
     apply filter_In in Hc. destruct Hc as [Hc _]. subst r. exact Hc.
-  - cbn [handle] in Hin. apply parent_groups_valid with (handle a false root); [apply IHa | exact Hin].
-  - cbn [handle] in Hin. apply parent_groups_valid with (handle a true root); [apply IHa | exact Hin].
+  - cbn [handle] in Hin. apply parent_groups_valid with (handle fx a false root); [apply IHa | exact Hin].
+  - cbn [handle] in Hin. apply parent_groups_valid with (handle fx a true root); [apply IHa | exact Hin].
   - cbn [handle] in Hin. cbv zeta in Hin.
-    destruct (filter_exact (handle a true root)) eqn:Hf; [destruct Hin|].
-    rewrite <- Hf in Hin. apply parent_groups_valid with (filter_exact (handle a true root)); [|exact Hin].
+    destruct (filter_exact (handle fx a true root)) eqn:Hf; [destruct Hin|].
+    rewrite <- Hf in Hin. apply parent_groups_valid with (filter_exact (handle fx a true root)); [|exact Hin].
     intros x Hx. apply filter_In in Hx. destruct Hx as [Hx _]. apply IHa with true; exact Hx.
   - cbn [handle] in Hin. cbv zeta in Hin.
-    destruct (filter_exact (handle b true root)) eqn:Hf.
-    + apply parent_groups_valid with (filter_exact (merge_and_groups (handle b true root) (handle a true root))); [|exact Hin].
+    destruct (filter_exact (handle fx b true root)) eqn:Hf.
+    + apply parent_groups_valid with (filter_exact (merge_and_groups fx (handle fx b true root) (handle fx a true root))); [|exact Hin].
       intros x Hx. apply filter_In in Hx. destruct Hx as [Hx _].
-      apply merge_valid with (handle b true root) (handle a true root); [apply IHb | exact Hx].
-    + rewrite <- Hf in Hin. apply parent_groups_valid with (filter_exact (handle b true root)); [|exact Hin].
+      apply merge_valid with (handle fx b true root) (handle fx a true root); [apply IHb | exact Hx].
+    + rewrite <- Hf in Hin. apply parent_groups_valid with (filter_exact (handle fx b true root)); [|exact Hin].
       intros x Hx. apply filter_In in Hx. destruct Hx as [Hx _]. apply IHb with true; exact Hx.
 Qed.
 
@@ -464,11 +451,14 @@ Definition distinct_groups (root : node) : Prop :=
                 group_eq c1 c2 = true -> chain_gid c1 = chain_gid c2.
 
 Lemma same_tags_safe root r m :
-  distinct_groups root -> valid root (sr_chain r) -> valid root (sr_chain m) ->
-  has_same_tags r m = true -> gid r = gid m /\ ids_eq (sr_tags r) (sr_tags m) = true.
+  fx = true \/ distinct_groups root -> valid root (sr_chain r) -> valid root (sr_chain m) ->
+  has_same_tags fx r m = true -> gid r = gid m /\ ids_eq (sr_tags r) (sr_tags m) = true.
 Proof.
   intros Hd Hr Hm H. unfold has_same_tags in H. apply andb_true_iff in H. destruct H as [H1 H2].
-  split; [apply Hd; assumption | assumption].
+  split; [|assumption].
+  destruct Hd as [Hd | Hd].
+  - subst fx. apply Nat.eqb_eq in H1. exact H1.
+  - destruct fx; [apply Nat.eqb_eq in H1; exact H1 | apply Hd; assumption].
 Qed.
 
 Lemma ids_eq_has a : forall b k, ids_eq a b = true ->
@@ -551,9 +541,9 @@ Lemma compat_merged_r a r o :
 Proof. intro Hc. rewrite !(compat_sym a). apply compat_merged_l. exact Hc. Qed.
 
 Lemma merge3_left root RA RB RC :
-  distinct_groups root ->
+  fx = true \/ distinct_groups root ->
   (forall x, In x RA -> valid root (sr_chain x)) ->
-  (nonempty (merge_and_groups (merge_and_groups RA RB) RC) = true <->
+  (nonempty (merge_and_groups fx (merge_and_groups fx RA RB) RC) = true <->
    exists a b c, In a RA /\ In b RB /\ In c RC /\ compat a b = true /\ compat a c = true /\ compat b c = true).
 Proof.
   intros Hd HA. rewrite merge_nonempty. split.
@@ -570,9 +560,9 @@ Proof.
 Qed.
 
 Lemma merge3_right root RA RB RC :
-  distinct_groups root ->
+  fx = true \/ distinct_groups root ->
   (forall x, In x RB -> valid root (sr_chain x)) ->
-  (nonempty (merge_and_groups RA (merge_and_groups RB RC)) = true <->
+  (nonempty (merge_and_groups fx RA (merge_and_groups fx RB RC)) = true <->
    exists a b c, In a RA /\ In b RB /\ In c RC /\ compat a b = true /\ compat a c = true /\ compat b c = true).
 Proof.
   intros Hd HB. rewrite merge_nonempty. split.
@@ -589,22 +579,14 @@ Proof.
     reflexivity.
 Qed.
 
-Lemma and_assoc_partial t1 t2 t3 t4 a b c i ch :
-  distinct_groups (Group i ch) ->
-  matches (EAnd t1 (EAnd t2 a b) c) (Group i ch) = matches (EAnd t3 a (EAnd t4 b c)) (Group i ch).
+Lemma and_assoc_general t1 t2 t3 t4 a b c i ch :
+  fx = true \/ distinct_groups (Group i ch) ->
+  matches fx (EAnd t1 (EAnd t2 a b) c) (Group i ch) = matches fx (EAnd t3 a (EAnd t4 b c)) (Group i ch).
 Proof.
   intro Hd. unfold matches. apply eq_true_iff_eq. rewrite !handle_and.
   rewrite (merge3_left (Group i ch)), (merge3_right (Group i ch)); [reflexivity | exact Hd | | exact Hd |].
   - intros x Hx. apply handle_valid with b false; exact Hx.
   - intros x Hx. apply handle_valid with a false; exact Hx.
-Qed.
-
-(* the hypothesis is met by a nested annotation with two different groups *)
-Lemma w_ann2_distinct : distinct_groups w_ann2.
-Proof.
-  intros c1 c2 H1 H2. unfold all_groups in H1, H2. simpl in H1, H2.
-  destruct H1 as [H1 | [H1 | [H1 | []]]]; destruct H2 as [H2 | [H2 | [H2 | []]]]; subst c1 c2;
-    vm_compute; intro H; try reflexivity; discriminate.
 Qed.
 
 (* ---------------------------------------------------------------- sibling order, terms and || *)
@@ -683,7 +665,7 @@ Fixpoint term_or_query (e : expr) : bool :=
   end.
 
 Lemma sibling_order_terms_or e : term_or_query e = true ->
-  forall a b, sperm a b -> is_tag a = false -> matches e a = matches e b.
+  forall a b, sperm a b -> is_tag a = false -> matches fx e a = matches fx e b.
 Proof.
   induction e as [tok | tok | tok x IHx y IHy | tok x IHx y IHy | tok x IHx | tok x IHx | tok x IHx | tok x IHx
                  | tok x IHx y IHy]; intro Hq; try discriminate; intros a b Hs Ha.
@@ -696,3 +678,32 @@ Proof.
   - simpl in Hq. apply andb_true_iff in Hq. destruct Hq as [Hx Hy].
     rewrite !or_iff, (IHx Hx a b Hs Ha), (IHy Hy a b Hs Ha). reflexivity.
 Qed.
+
+End Fx.
+
+(* witness of C15-F1 *)
+Definition w_red (i : nat) : node := Tag i [[99; 111; 108; 111; 114]%N; [114; 101; 100]%N] [82; 101; 100]%N [82; 101; 100]%N.
+Definition w_blue (i : nat) : node := Tag i [[99; 111; 108; 111; 114]%N; [98; 108; 117; 101]%N] [66; 108; 117; 101]%N [66; 108; 117; 101]%N.
+(* (Red,Blue),(Red,Blue) *)
+Definition w_ann1 : node := Group 0 [Group 1 [w_red 2; w_blue 3]; Group 4 [w_red 5; w_blue 6]].
+(* (Red,Blue),(Blue,Red): the second group reordered *)
+Definition w_ann2 : node := Group 0 [Group 1 [w_red 2; w_blue 3]; Group 4 [w_blue 6; w_red 5]].
+(* [~Green && ~Item] && [~Green && ~Item] *)
+Definition w_query : str := [91; 126; 71; 114; 101; 101; 110; 32; 38; 38; 32; 126; 73; 116; 101; 109; 93; 32; 38; 38; 32; 91; 126; 71; 114; 101; 101; 110; 32; 38; 38; 32; 126; 73; 116; 101; 109; 93]%N.
+
+Lemma w_sperm : sperm w_ann1 w_ann2.
+Proof.
+  apply rt_step. unfold w_ann1, w_ann2.
+  apply (sp_inside 0 [Group 1 [w_red 2; w_blue 3]] (Group 4 [w_red 5; w_blue 6]) (Group 4 [w_blue 6; w_red 5]) []).
+  apply sp_here. apply perm_swap.
+Qed.
+
+
+(* the hypothesis is met by a nested annotation with two different groups *)
+Lemma w_ann2_distinct : distinct_groups w_ann2.
+Proof.
+  intros c1 c2 H1 H2. unfold all_groups in H1, H2. simpl in H1, H2.
+  destruct H1 as [H1 | [H1 | [H1 | []]]]; destruct H2 as [H2 | [H2 | [H2 | []]]]; subst c1 c2;
+    vm_compute; intro H; try reflexivity; discriminate.
+Qed.
+
